@@ -701,6 +701,21 @@ class Interp:
 
     def e_Dict(self, e, env, module, cls):
         d = {}
+        if e.keys and all(k is None for k in e.keys):
+            srcs = [self.force(self.eval(v, env, module, cls)) for v in e.values]
+            if any(isinstance(x, Sym) and x.kind == "opaque" and x.elem == "Dict" for x in srcs):
+                # {**a, **b, ...} over abstract mappings: right-biased merge (later keys win), as an uninterpreted term
+                if not all(isinstance(x, Sym) and x.kind == "opaque" and x.elem == "Dict" for x in srcs):
+                    self.outside("dict display mixing abstract and concrete mappings", e)
+                acc = srcs[0].t
+                for x in srcs[1:]:
+                    acc = ops.dict_merge(acc, x.t)
+                return Sym(acc, "opaque", "Dict")
+            for src in srcs:
+                if not isinstance(src, dict):
+                    self.outside("** of a symbolic mapping", e)
+                d.update(src)
+            return d
         for k, v in zip(e.keys, e.values):
             if k is None:
                 src = self.force(self.eval(v, env, module, cls))
